@@ -282,8 +282,8 @@ pub fn eval_prepared(cfg: &Config, prep: &mut Prepared, body_table: &SafetyDesc,
         }
         // a single colliding pair in first-collision mode is the sharpest case for the parallel search: exactly one task can
         // produce the result, wherever it sits in the task list; those cases run in pools of every size 1..16
-        // (on a third of such cases, chosen by the bits of the joint vector, and on all of them in the thorough tier)
-        let single_hit = mode == 0 && hit.len() == 1 && boundary.is_empty() && (thorough_tier() || (hq ^ (hq >> 17)) % 3 == 0);
+        // (on a sixth of such cases, chosen by the bits of the joint vector, and on all of them in the thorough tier)
+        let single_hit = mode == 0 && hit.len() == 1 && boundary.is_empty() && (thorough_tier() || (hq ^ (hq >> 17)) % 6 == 0);
         if (pools || single_hit) && mode != 2 {
             // schedules: in first-collision mode *which* hit is returned may differ (each must be a hit); the all-collisions
             // list and the boolean verdict must be identical for every pool size and every repetition
@@ -499,6 +499,10 @@ pub fn run(ctx: &Ctx) -> Report {
         if !thorough && ix[0] != 0 && (ix[3] + ix[1]) % 4 != 0 && ix[3] < n_product {
             return;
         }
+        // quick tier: the finely meshed variant (by far the most expensive for the brute-force oracle) on every second posture
+        if !thorough && ix[2] == 1 && (ix[3] + ix[1]) % 2 == 1 && ix[3] < n_product {
+            return;
+        }
         r.states += 1;
         let mut prep = prepare(&cfg);
         let mut record = |fails: Vec<(String, String)>, sig: String, extra: Value, r: &mut Report| {
@@ -521,7 +525,7 @@ pub fn run(ctx: &Ctx) -> Report {
             }
         }
         // NEVER_COLLIDES on each candidate pair, both key orders, on top of the 5 cm table; and near() with differing tables
-        if ix[3] % 6 == 0 || thorough || ix[3] >= n_product {
+        if ix[3] % 8 == 0 || thorough || ix[3] >= n_product {
             let dist = prep.dist.clone();
             let t2 = &tables[2];
             let (hit, _) = pairs_ref(&dist, t2);
@@ -560,6 +564,8 @@ pub fn run(ctx: &Ctx) -> Report {
                     }
                 }
             }
+            // quick tier: on the richest cell (tool and base in place) and on the folded-wrist postures
+            let siblings = if thorough || ix[0] == 0 || ix[3] >= n_product { siblings } else { Vec::new() };
             for (si, p) in siblings.into_iter().enumerate() {
                 for flip in [false, true] {
                     if !thorough && flip != ((si + ix[3]) % 2 == 1) {
